@@ -630,10 +630,17 @@ impl Drop for OsOpaqueIpcChannel {
     fn drop(&mut self) {
         // Make sure we don't leak!
         //
-        // The `OsOpaqueIpcChannel` objects should always be used,
+        // The `OsOpaqueIpcChannel` objects are normally used,
         // i.e. converted with `to_sender()` or `to_receiver()` --
-        // so the value should already be unset before the object gets dropped.
-        debug_assert!(self.fd == -1);
+        // in which case the value is already unset when the object gets dropped.
+        // A channel that was received but never handed to the program
+        // (message dropped undecoded, decoding failed, reassembly of the message aborted)
+        // still owns its descriptor and has to release it.
+        if self.fd != -1 {
+            unsafe {
+                libc::close(self.fd);
+            }
+        }
     }
 }
 
